@@ -61,6 +61,11 @@ type schedTrace struct {
 }
 
 type Sched struct {
+	// chanPoints: channel statements of the code under test are scheduling
+	// points (set per scenario: they multiply the schedules of scenarios
+	// whose background goroutines are stopped through channels, and matter
+	// where a thread registers for a notification and then waits for it)
+	chanPoints bool
 	mu       sync.Mutex
 	threads  []*thread
 	byGoid   map[int64]*thread
@@ -159,6 +164,9 @@ func (s *Sched) spawn(name string, body func()) {
 func (s *Sched) Point(op vhook.Op) {
 	g := goid()
 	if g == s.rootGoid {
+		return
+	}
+	if op.Kind == vhook.KChan && !s.chanPoints {
 		return
 	}
 	s.mu.Lock()
